@@ -108,7 +108,9 @@ def run(workdir_path, module, cfg_text, workers=None, timeout=1800, simulate=Non
     with open(cfg, "w") as f:
         f.write(cfg_text)
     meta = os.path.join(workdir_path, "meta_" + module + "_" + str(int(time.time() * 1000) % 10**9))
-    cmd = ["java", "-XX:+UseParallelGC", "-Xss16m"] + (java_opts or []) + ["-cp", JAR, "tlc2.TLC",
+    # MemStateQueue: plain in-memory FIFO (breadth-first order kept).  TLC 1.8's default DiskStateQueue fails
+    # on some of these specs with "Error: when writing the disk (StatePoolWriter.run) ... fcnRcd is null"
+    cmd = ["java", "-XX:+UseParallelGC", "-Xss16m", "-Dtlc2.tool.queue.IStateQueue=MemStateQueue"] + (java_opts or []) + ["-cp", JAR, "tlc2.TLC",
            "-metadir", meta, "-noGenerateSpecTE", "-config", module + ".cfg",
            "-workers", str(workers or NCPU)]
     if coverage:
